@@ -49,7 +49,7 @@ def outcome(reply):
 
 
 ALL_MODES = ["ok", "ok", "unused", "invalid-vector", "duplicate", "rc-duplicate", "palindrome", "missing",
-             "invalid-module", "illegal-module", "fault", "fault-vector", "same-object", "bad-citation"]
+             "invalid-module", "illegal-module", "cycle", "fault", "fault-vector", "same-object", "bad-citation"]
 
 
 def perturb(rng, case, info, modes=None):
@@ -107,6 +107,16 @@ def perturb(rng, case, info, modes=None):
             r_ = rng.randrange(len(w2))
             mods[i] = dict(m, word=w2[r_:] + w2[:r_])
         else:
+            mode = "ok"
+    elif mode == "cycle":
+        # the last module of the chain closes on the first module instead of the vector: the walk comes back to an
+        # overhang whose module is already used up — MissingModule, like any other stall
+        first, last = info["mparts"][0], info["mparts"][-1]
+        try:
+            wd, _ = gen.gen_module(rng, enz, last["o5"], first["o5"], tries=100)
+            j = next(i_ for i_, m_ in enumerate(mods) if m_["oid"] == len(info["mparts"]))
+            mods[j] = dict(mods[j], word=wd, feats=[])
+        except (RuntimeError, StopIteration):
             mode = "ok"
     elif mode == "fault":
         i = rng.randrange(len(mods))
